@@ -1398,3 +1398,13 @@ case("c13-refactor-scope-match-inline", "C13", "refactor", [("src/stabilize/even
         return bool(same_database(store_url) == same_database(scope.url))""", """        mgr = get_connection_manager()
         return mgr._parse_sqlite_path(scope.url) == mgr._parse_sqlite_path(store_url)""")])
 case("c13-txn-catches-exception-only", "C13", "mutant", [("src/stabilize/persistence/sqlite/store/store.py", "        except BaseException:", "        except Exception:")], "C13.R2")
+case("c06-pause-unconditional", "C06", "mutant", [("src/stabilize/persistence/sqlite/operations.py", "        WHERE id = :id AND status IN (:running, :not_started)", "        WHERE id = :id")], "C06.R3")
+case("c06-pause-also-from-succeeded", "C06", "mutant", [("src/stabilize/persistence/sqlite/operations.py", '            "not_started": WorkflowStatus.NOT_STARTED.name,', '            "not_started": WorkflowStatus.SUCCEEDED.name,')], "C06.R3")
+case("c16-memoised-decoder", "C16", "mutant", [("src/stabilize/persistence/sqlite/queries.py", "def load_tasks_for_stages(", "import functools\n\n\n@functools.lru_cache(maxsize=None)\ndef _decode(raw: str) -> Any:\n    return json.loads(raw)\n\n\ndef load_tasks_for_stages("), ("src/stabilize/persistence/sqlite/queries.py", """        outputs = json.loads(row["outputs"] or "{}")""", """        outputs = _decode(row["outputs"] or "{}")""")], "C16.R2")
+case("c16-refactor-decode-helper", "C16", "refactor", [("src/stabilize/persistence/sqlite/queries.py", "def load_tasks_for_stages(", "def _decode(raw: str) -> Any:\n    return json.loads(raw)\n\n\ndef load_tasks_for_stages("), ("src/stabilize/persistence/sqlite/queries.py", """        outputs = json.loads(row["outputs"] or "{}")""", """        outputs = _decode(row["outputs"] or "{}")""")])
+case("c16-refactor-reducer-locals", "C16", "refactor", [("src/stabilize/reducers.py", """        values = [outputs[key] for outputs in branch_outputs if key in outputs]
+        if values:
+            result[key] = reducer(values)""", """        found = [bo[key] for bo in branch_outputs if key in bo]
+        if not found:
+            continue
+        result[key] = reducer(found)""")])
